@@ -25,35 +25,43 @@ PS = "ctpg::detail::parse_state::"
 
 
 def match(chk, fx):
-    chk.rule("MATCH", "dfa_match: longest-match scan", 7)
+    from . import pathsig as PS
+    from .lr import _drop_noise
+    chk.rule("MATCH", "dfa_match: longest-match scan", 5)
     f = first_inst(fx, "ctpg::regex::dfa_match")
     flow.assert_structured(f)
     cn = Canon(f)
-    loops = [n for n in (f.body.get("c") or []) if n.get("k") == "WhileStmt"]
+    loops = [n for n in (f.body.get("c") or []) if n.get("k") in ("WhileStmt", "ForStmt")]
     if len(loops) != 1:
         chk.incomplete("dfa_match: scan loop not found")
     loop = loops[0]
-    ev = []
-    for k, t, g, n in _events(f, cn, loop["body"]):
-        ev.append((k, t, tuple(sorted(x for x in g if "verbose" not in x))))
-    for n in walk(loop["body"]):
-        if (n.get("k") == "UnaryOperator" and n.get("op") in ("++", "--")) or \
-                (n.get("k") == "CXXOperatorCallExpr" and n.get("op") in ("++", "--", "+=")):
-            ev.append(("inc", cn.c(n), tuple(sorted(x for x in cn.guards(n) if "verbose" not in x))))
-    ev = [e for e in ev if not (e[0] == "call")]
+    # the loop condition (if any) is part of every iteration
+    pre = PS.signed_atoms(cn, loop["cond"], True) if loop.get("cond") is not None and flow.cond_atoms(loop["cond"], False) else None
+    actual, nodes = PS.event_conditions(cn, loop["body"], unroll=1, drop=_drop_noise, pre=pre)
+    actual = {k: v for k, v in actual.items() if k[0] != "call"}
+    if loop.get("cond") is not None and flow.cond_atoms(loop["cond"], False):
+        # leaving through the loop condition counts as a break under the negated condition
+        ex = {frozenset(a) for a in PS.signed_atoms(cn, loop["cond"], False)}
+        actual[("break", "")] = actual.get(("break", ""), set()) | ex
     # roles
     rt = ln = st = None
-    for k, t, g in ev:
+    for (k, t) in actual:
         m = re.fullmatch(r"\(\?(\w+)\.len = \?(\w+)\)", t)
         if k == "assign" and m:
             rt, ln = m.group(1), m.group(2)
         m = re.fullmatch(r"\(\?(\w+) = \$0\[\?(\w+)\]\.transitions\[char_to_idx\(\*\$3\)\]\)", t)
         if k == "assign" and m and m.group(1) == m.group(2):
             st = m.group(1)
+    whole = None
+    if rt is None and st is not None:
+        # the snapshot may be taken by assigning a whole result object: rt = recognized_term(rec, len)
+        for (k, t) in actual:
+            m = re.fullmatch(r"\(\?(\w+) = recognized_term\{(.+), \?(\w+)\}\)", t)
+            if k == "assign" and m and m.group(2) == "$0[?%s].conflicted_recognition[0]" % st:
+                rt, ln, whole = m.group(1), m.group(3), t
     if rt is None or ln is None or st is None:
-        # distinguish "recognisably wrong" from "unrecognisable"
-        lens = [t for k, t, g in ev if k in ("assign", "inc") and ".len" in t]
-        if lens:
+        lens = [t for (k, t) in actual if k in ("assign", "inc") and ".len" in t]
+        if lens and (rt is None or ln is None):
             chk.violation("MATCH", A.site(f, loop), "MATCH:length-snapshot",
                           "the match length is recorded as %s: it must be a snapshot (result.len = <counter>) taken at "
                           "an accepting state" % lens)
@@ -61,19 +69,30 @@ def match(chk, fx):
         chk.incomplete("dfa_match: result/counter/state roles not recognised")
     REC = "$0[?%s].conflicted_recognition[0]" % st
     TR = "$0[?%s].transitions[char_to_idx(*$3)]" % st
-    acc = ("(%s != uninitialized16)" % REC,)
-    go = ("!(%s == uninitialized16)" % TR, "!($3 == $4)")
-    want = {
-        ("assign", "(?%s.len = ?%s)" % (rt, ln), acc): "the length is snapshotted at an accepting state",
-        ("assign", "(?%s.term_idx = %s)" % (rt, REC), acc): "the winning term (priority slot 0) is snapshotted with it",
-        ("break", "", ("($3 == $4)",)): "the scan stops at the end of input",
-        ("break", "", ("!($3 == $4)", "(%s == uninitialized16)" % TR)): "the scan stops where no transition exists",
-        ("assign", "(?%s = %s)" % (st, TR), go): "the state follows the transition for the current byte",
-        ("inc", "++$3", go): "the iterator advances by one byte per transition",
-        ("inc", "++?%s" % ln, go): "the length counter advances with the iterator",
-    }
-    _compare(chk, "MATCH", f, loop, ev, want)
-    # initial values: state 0, counter 0, default (failure) result
+    ACC = ("(%s == uninitialized16)" % REC, False)
+    AT_END = "($3 == $4)"
+    NO_TR = "(%s == uninitialized16)" % TR
+    go = [(AT_END, False), (NO_TR, False)]
+    snap = [("assign", "(?%s.len = ?%s)" % (rt, ln)), ("assign", "(?%s.term_idx = %s)" % (rt, REC))] if whole is None \
+        else [("assign", whole)]
+    want = {}
+    for key in snap:
+        want[key] = (PS.dnf([ACC]), "length and winning term (priority slot 0) are snapshotted at every accepting state")
+    want.update({
+        ("break", ""): (PS.dnf([(AT_END, True)], [(AT_END, False), (NO_TR, True)]),
+                        "the scan stops at the end of input or where no transition exists, and only there"),
+        ("assign", "(?%s = %s)" % (st, TR)): (PS.dnf(go), "the state follows the transition for the current byte"),
+        ("inc", "$3++"): (PS.dnf(go), "the iterator advances by one byte per transition"),
+        ("inc", "?%s++" % ln): (PS.dnf(go), "the length counter advances with the iterator"),
+    })
+    # snapshot events are reached through either outcome of later tests: compare on their own atoms only
+    proj = {}
+    for key, v in actual.items():
+        if key in snap:
+            proj[key] = {frozenset((a, p) for a, p in c if a == ACC[0]) for c in v}
+        else:
+            proj[key] = {frozenset((a, p) for a, p in c if a != ACC[0]) for c in v}
+    PS.compare(chk, "MATCH", f, loop, proj, nodes, want)
     inits = {n["n"]: cn.c(n["init"]) if n.get("init") is not None else None for n in walk(f.body)
              if n.get("k") == "Var" and n["n"] in (st, ln, rt)}
     if inits.get(st) == "0" and inits.get(ln) == "0" and (inits.get(rt) or "").startswith("recognized_term{"):
